@@ -191,6 +191,16 @@ struct CompliantElem : ContactElemBase {
         o.F = k.m.sys.getRigidBodyForces(s, Stage::Dynamics); o.f = k.m.sys.getMobilityForces(s, Stage::Dynamics);
     }
     double potentialEnergy(FCase& k, const State& s) override { return k.m.sys.calcPotentialEnergy(s); }
+    // Documented exception ("yanking", CompliantContactSubsystem::getDissipatedEnergy and the generators' comments): a
+    // contact element whose Hunt-Crossley force would be negative produces no force, no power loss and its stored
+    // energy is dropped from the velocity-stage potential energy. Seen from outside as: the potential energy summed
+    // from the contact forces (state realized to Velocity) is below the position-only value at the same q.
+    bool yankOutPresent(FCase& k, const State& s) override {
+        double peV = k.m.sys.calcPotentialEnergy(s);
+        State w = s; w.updQ() = s.getQ(); k.m.sys.realize(w, Stage::Position);
+        double peP = k.m.sys.calcPotentialEnergy(w);
+        return peP - peV > 1e-9 * std::fabs(peP);
+    }
     double reportedDissipation(FCase&, const State& s) override {
         double p = 0; int n = compliant->getNumContactForces(s);
         for (int i = 0; i < n; ++i) p += compliant->getContactForce(s, i).getPowerDissipation();
